@@ -227,6 +227,15 @@ func c13NewWorld() *c13World {
 	w.servers["U"] = c13Start("U", cu, c13OddCert()) /* chain: leaf U, then a certificate with a key Go cannot marshal */
 	cs, _ := c13SlashKey()
 	w.servers["S"] = c13Start("S", cs) /* a key whose pin begins with '/' */
+	/* L: a leaf of its own followed by eleven more certificates (a long
+	chain, a bundle served whole); A's is the last of them. */
+	cl, _ := c13Cert("server-l")
+	var long []*x509.Certificate
+	for k := 0; k < 10; k++ {
+		_, x := c13Cert(fmt.Sprintf("filler-%d", k))
+		long = append(long, x)
+	}
+	w.servers["L"] = c13Start("L", cl, append(long, la)...)
 	pa, pb := hworld.PinOf(w.servers["A"].chain[0]), hworld.PinOf(w.servers["B"].chain[0])
 	ps := hworld.PinOf(w.servers["S"].chain[0])
 	w.pins = map[string]string{
@@ -399,7 +408,7 @@ func c13(r *ev.Result, tier string) {
 	for k := range w.pins {
 		classes = append(classes, k)
 	}
-	for _, srv := range []string{"A", "B", "C", "I", "U", "S"} {
+	for _, srv := range []string{"A", "B", "C", "I", "U", "S", "L"} {
 		for _, pc := range classes {
 			c := c13Call{Server: srv, Pin: pc}
 			i := id()
